@@ -337,8 +337,20 @@ static void product_dispatch_case(uint64_t N, int fam, unsigned rep, int cfg) {
   case_end(N >= 4);
 }
 
+// accelerated conversion entries vs their reference kernels on tables that are created, used, freed and re-created at the
+// same address with other parameters (shared with C14)
+extern uint64_t c14_recycled_tables_core(rng_t* r, unsigned seq);
+static void recycled_tables_case(unsigned seq) {
+  if (!case_begin("conversions@native~reference kernel|tables re-created at the same address", "sequence=%u", seq)) return;
+  const uint64_t tables = c14_recycled_tables_core(crng(), seq);
+  cnt("recycled_table_comparisons", tables);
+  sample("%" PRIu64 " tables in a row: dispatch entry equal to the reference kernel on every one", tables);
+  case_end(1);
+}
+
 void run_C07(void) {
   const int th = G.thorough;
+  for (unsigned seq = 0; seq < (th ? 1500u : 96u); seq++) recycled_tables_case(seq);
   for (size_t ni = 0; ni < N_ALL_N; ni++) {
     const uint64_t N = ALL_N[ni];
     const unsigned seeds = th ? (N <= 1024 ? 300 : (N <= 8192 ? 60 : 16)) : (N <= 256 ? 16 : (N <= 4096 ? 6 : 2));
